@@ -272,7 +272,20 @@ def _mixture(driver):
                         ok = False
         if not ok:
             bad.append({"state": state, "setter": which, "arg": v, "impl": res, "model": g})
-    return not bad, f"both Mixture setters on {len(ops)} (state, argument) pairs", bad[:5]
+    # the printed form (`generate_string`) against the pinned `printMixX`
+    pvals = [None, 0.0, 25.0, 40.5, 100.0, 2.0 ** -20, 1e16, 1234567.125]      # floats whose repr is their exact decimal value (the domain of `numStr`)
+    pops, pwant = [], []
+    for a in pvals:
+        for r in pvals:
+            for which, flag in (("print", True), ("print0", False)):
+                mix = gbigsmiles.Mixture(".")
+                mix._absolute_mass, mix._relative_mass = a, r
+                pops.append({"op": "MIXSETX", "which": which, "v": "0", "m": {"abs": None if a is None else frac(a), "rel": None if r is None else frac(r), "sys": None}})
+                pwant.append(((a, r), which, mix.generate_string(flag)))
+    for (state, which, text), g in zip(pwant, driver.run(pops)):
+        if g.get("s") != text:
+            bad.append({"state": state, "printed": which, "impl": text, "model": g})
+    return not bad, f"both Mixture setters on {len(ops)} (state, argument) pairs; generate_string on {len(pops)} states", bad[:5]
 
 
 VALIDATORS["mixture"] = _mixture
